@@ -1069,6 +1069,8 @@ def schwarz_parameters(A, subdomain=None, subdomain_ptr=None,
                                        (np.ones((1,), dtype=A.dtype)))
         for i in range(subdomain_ptr.shape[0]-1):
             m = blocksize[i]
+            if m == 0:
+                continue  # empty subdomain (empty row of A): nothing to invert
             rhs = np.eye(m, m, dtype=A.dtype)
             j0 = inv_subblock_ptr[i]
             j1 = inv_subblock_ptr[i+1]
